@@ -135,6 +135,15 @@ CHECKS = {
         'the file round trip (iostream), absence of out-of-bounds accesses outside the modelled index arithmetic (sanitizer sweep).',
    note='Trusted: Coq kernel (classical real-number axioms of the standard library through Reals), hand model tied by K-gridgen, guarded trace hook, extraction.',
    design='5/C18'),
+ 'C19': dict(
+   technique='Coq proof over expressions regenerated from the C++ sources (translator T7): a symbolic derivative proved correct against Coquelicot is_derive by induction over the expression language, Jacobian / gyro / boundary identities and the manufactured-solution identity by field arithmetic (plus one Interval bound) + K-inputfn validation of the translator against the compiled classes + numeric search for a failing point',
+   text='PARTIAL. Proved for all points and parameters in the documented ranges: the four Jacobian functions of the circular, Shafranov and Czarny geometries are the partial derivatives of their mappings; '
+        'the three gyro profiles have beta = 1/alpha (the Sonnendrucker alpha is positive on the domain), the non-gyro ones beta = 0; the 24 boundary functions are the exact solutions; for 15 source-term classes '
+        '(circular geometry x {Poisson, Zoni, ZoniShifted, ZoniGyro, ZoniShiftedGyro} x {CartesianR2, CartesianR6, PolarR6}) rhs_f = -div(alpha grad u) + beta u of the shipped exact solution at every r > 0. '
+        'Not theorems (compared numerically with the symbolically differentiated operator at sample points, reported as sampled): the 51 other non-Culham source terms (Sonnendrucker constants are 15-digit truncations, '
+        'Shafranov / Czarny formulas are too large for field). Culham: nothing closed-form to check. Finding F11 (three Poisson x Czarny source terms are wrong) is recorded as known.',
+   note='Trusted: Coq kernel, real-number axioms + classic (Coquelicot) + primitive floats/ints (Interval, one lemma), translator T7 (validated pointwise against the compiled classes on every run).',
+   design='5/C19'),
 }
 NA_REASON = 'check not built yet in this revision of /verif (design in DESIGN.md section 5); not claimed'
 
